@@ -140,6 +140,10 @@ class Dongle:
         w = self.w
         if w.dead:
             raise Dead()
+        if self.id in getattr(w, "dead_conns", ()):
+            # the device this handle was opened to is gone (unplugged, swapped)
+            w.log.append(("stale_handle", self.id))
+            raise OSError("read error")
         apdu = bytes(apdu)
         k = w.nex
         w.nex += 1
